@@ -475,7 +475,7 @@ Section SetSpec.
     cbn [is_map is_slice orb andb is_func bind convert]. rewrite Hcv. cbn [bind].
     cbn [set_fl rt_vals].
     destruct (f_clearref (rt_fl r (o_fid (oc_opt oc)))).
-    - unfold opt_empty. rewrite Hty. cbn [is_func empty_value zero_value set_val rt_vals].
+    - unfold opt_empty, opt_empty_value. rewrite Hty. cbn [is_func empty_value zero_value set_val rt_vals].
       rewrite upd_eq. reflexivity.
     - destruct (rt_vals r (o_fid (oc_opt oc))); reflexivity.
   Qed.
@@ -538,7 +538,7 @@ Section SetSpec.
     destruct (cut_byte v 58) as [a [b|]]; cbn [fst snd] in Hk, Hv; rewrite Hk; cbn [bind]; rewrite Hv; cbn [bind];
       cbn [set_fl rt_vals];
       (destruct (f_clearref (rt_fl r (o_fid (oc_opt oc))));
-       [ unfold opt_empty; rewrite Hty; cbn [is_func empty_value set_val rt_vals];
+       [ unfold opt_empty, opt_empty_value; rewrite Hty; cbn [is_func empty_value set_val rt_vals];
          rewrite upd_eq; reflexivity
        | destruct (rt_vals r (o_fid (oc_opt oc))); reflexivity ]).
   Qed.
@@ -781,7 +781,7 @@ Section Defaults.
   Lemma nil_ref_true : forall o cur r1, nil_ref (o_ty o) cur = true ->
     opt_empty o r1 = set_val r1 (o_fid o) (clear_value (o_ty o) cur).
   Proof.
-    intros o cur r1 H. unfold opt_empty.
+    intros o cur r1 H. unfold opt_empty, opt_empty_value.
     destruct (o_ty o); try discriminate H; destruct cur; try discriminate H;
       destruct isnil; try discriminate H; reflexivity.
   Qed.
